@@ -4,6 +4,7 @@ use std::io::{self, BufRead, Write};
 use std::panic;
 
 mod alloc;
+mod ops_address;
 mod ops_basic;
 
 pub fn unhex(s: &str) -> Option<Vec<u8>> {
@@ -26,6 +27,9 @@ fn run_line(line: &str) -> String {
     let op = it.next().unwrap_or("");
     let args: Vec<&str> = it.collect();
     if let Some(r) = ops_basic::run(op, &args) {
+        return r;
+    }
+    if let Some(r) = ops_address::run(op, &args) {
         return r;
     }
     "BADCASE".to_string()
